@@ -42,6 +42,9 @@ type Scenario struct {
 	// ByThread (with Fork): one equivocating server; which of the two logs answers is decided by the
 	// top-level goroutine the request descends from (goroutine k talks to log k mod 2), not by the client.
 	ByThread bool
+	// Grow: after the stored head has been taken, the server's log grows by this many more records
+	// before the clients start (large logs: many tiles per read).
+	Grow int
 }
 
 // CurrentThread returns the id (1-based, in spawn order) of the top-level goroutine the caller descends
@@ -90,6 +93,19 @@ func All() []Scenario {
 	}
 }
 
+// Big returns scenarios over larger logs (one read asks for many tiles at once). They are explored with
+// small deviation bounds only.
+func Big() []Scenario {
+	return []Scenario{
+		{Name: "big-log-h1-stored-1", Height: 1, Preload: pre(10), Stored: true, Grow: 40, Clients: 1, Threads: [][]Lookup{{L(0, 0, false)}, {L(0, 1, true)}}},
+		{Name: "big-log-h1-stored-1-b", Height: 1, Preload: pre(10), Stored: true, Grow: 61, Clients: 1, Threads: [][]Lookup{{L(0, 0, false)}, {L(0, 1, true)}}},
+		{Name: "big-log-h1-stored-1-c", Height: 1, Preload: pre(10), Stored: true, Grow: 125, Clients: 1, Threads: [][]Lookup{{L(0, 1, true)}, {L(0, 0, false)}}},
+		{Name: "big-log-h1-empty-config", Height: 1, Preload: pre(10), Grow: 270, Clients: 1, Threads: [][]Lookup{{L(0, 0, false)}, {L(0, 2, false)}}},
+		{Name: "big-log-h2-stored-1", Height: 2, Preload: pre(10), Stored: true, Grow: 300, Clients: 2, Threads: [][]Lookup{{L(0, 0, false)}, {L(1, 1, false)}}},
+		{Name: "big-log-h8-stored-1", Height: 8, Preload: pre(10), Stored: true, Grow: 300, Clients: 1, Threads: [][]Lookup{{L(0, 0, false)}, {L(0, 0, true)}}},
+	}
+}
+
 // ForkScenarios are the C13 schedule scenarios: two clients share a compare-and-swap config
 // while their servers present forks of the same prefix, or the same log at different sizes.
 func ForkScenarios() []Scenario {
@@ -102,7 +118,7 @@ func ForkScenarios() []Scenario {
 }
 
 func Find(name string) (Scenario, bool) {
-	for _, s := range append(All(), ForkScenarios()...) {
+	for _, s := range append(append(All(), ForkScenarios()...), Big()...) {
 		if s.Name == name {
 			return s, true
 		}
@@ -313,6 +329,12 @@ func Exec(sc Scenario, spawn func(func()), wait func(), point func(string)) (*En
 			// the stored head is the shared prefix: serve it from a pristine server of the same size
 		}
 		e.Config[k.Name+"/latest"] = head
+	}
+	for i := 0; i < sc.Grow; i++ {
+		pv.id = 0
+		if _, err := pv.ReadRemote(fmt.Sprintf("/lookup/filler%d.example/f@v1.0.%d", i, i)); err != nil {
+			panic("growing the log failed: " + err.Error())
+		}
 	}
 	e.Ops, e.HeadsSeen, e.Served = nil, nil, nil
 	e.Point = point
